@@ -54,6 +54,11 @@ SCRIPTS[("C04", "native_cancel_in_empty_exit_checkpoint_replaces_anyio_cancellat
 SCRIPTS[("C04", "shielded_fail_after_inside_cancelled_scope")] = ("a block opened with fail_after(shield=True) inside a cancelled scope is not interrupted", [
     (S.NEWROOT,), (S.NEWSCOPE, 1, -1, 0), (S.ENTER, 1, 1), (S.FAILAT, 1, 9, 1), (S.CANCEL, 1, 1), (S.SLEEP, 1, 2), (S.TICK, 2),
     (S.RUNSLEEPDONE, 1), (S.RUNWAKE, 1), (S.EXIT, 1, 2, 1), (S.YIELD, 1), (S.RUNDELIVER, 1), (S.RUNSTEP, 1)])
+SCRIPTS[("C08", "f46_shield_raised_while_ckif_spins")] = ("F46 regression: the outer scope is cancelled while the task is about to resume; the task calls checkpoint_if_cancelled and suspends; another task raises the shield of its current scope; the delivery runs and reaches nobody; the re-check must return normally instead of spinning on sleep(0)", [
+    (S.NEWROOT,), (S.NEWSCOPE, 1, -1, 0), (S.ENTER, 1, 1), (S.NEWSCOPE, 1, -1, 0), (S.ENTER, 1, 2), (S.SLEEP, 1, 3), (S.NEWROOT,), (S.TICK, 3),
+    (S.RUNSLEEPDONE, 1), (S.CANCEL, 2, 1), (S.RUNWAKE, 1), (S.CKIF, 1), (S.SETSHIELD, 2, 2, 1), (S.RUNDELIVER, 1), (S.RUNSTEP, 1),
+    (S.EXIT, 1, 2, 0), (S.YIELD, 1), (S.RUNDELIVER, 1), (S.RUNSTEP, 1), (S.EXIT, 1, 1, 1)])
+SCRIPTS[("C03", "f46_shield_raised_while_ckif_spins")] = SCRIPTS[("C08", "f46_shield_raised_while_ckif_spins")]
 SCRIPTS[("C05", "f19_native_cancel_after_anyio_delivery_same_cycle")] = ("known finding F19: the scope's delivery has cancelled the task's wait, a native Task.cancel() arrives before the task runs: only the scope's own CancelledError surfaces and is absorbed", [
     (S.NEWROOT,), (S.NEWSCOPE, 1, -1, 0), (S.ENTER, 1, 1), (S.SLEEP, 1, -1), (S.EXTCANCEL, 1), (S.RUNDELIVER, 1), (S.NATIVECANCEL, 1),
     (S.RUNWAKE, 1), (S.EXIT, 1, 1, 0), (S.YIELD, 1), (S.RUNSTEP, 1)])
